@@ -183,6 +183,7 @@ func evalGen(in []*big.Int) ([]*big.Int, []*big.Int) {
 // input: 2 nops (op slot addr eni fam mode)*
 //   op 1 setup slot with address addr on eni (fam 1 v4, 2 v6, 3 dual) | 2 teardown slot (mode 0 real ENI index, 1 index 0, 2 index of a vanished ENI)
 //      3 the sandbox of slot is destroyed without a DEL (host veth vanishes) | 4 ENI vanishes | 5 ENI comes back (new index)
+//      6 the pod of slot is forgotten without any teardown: veth, routes and rules stay, its address may be handed out again
 // output per op: 99 op slot addr fam eni err nrules (prio fam srcaddr dstaddr tbl)* nveth (slot)* nmain (fam addr dev)* ntab (tbl fam gw dev)*
 //                nlook (slot addr fam eni todev fromdev fromgw)* ncont (slot fam def4 def6 n4 n6)*
 //   dev: 100+slot host veth, 200+eni ENI, 0 nothing, -1 something else; tbl: 0 main, eni*10+generation otherwise
@@ -190,8 +191,8 @@ func evalGen(in []*big.Int) ([]*big.Int, []*big.Int) {
 type world struct {
 	host     ns.NetNS
 	cont     map[int]ns.NetNS
-	eniIdx   map[int]int   // eni -> current ifindex (0 = vanished)
-	eniGen   map[int]int   // eni -> generation
+	eniIdx   map[int]int    // eni -> current ifindex (0 = vanished)
+	eniGen   map[int]int    // eni -> generation
 	idxOwner map[int][2]int // ifindex -> (eni, generation)
 	slotAddr map[int]int
 	slotFam  map[int]int
@@ -475,7 +476,7 @@ func evalSeq(in []*big.Int) ([]*big.Int, []*big.Int) {
 			k, s, a, j, fam, mode := op[0], op[1], op[2], op[3], op[4], op[5]
 			var err error
 			ha, hf, hj := a, fam, j
-			if k == 2 || k == 3 {
+			if k == 2 || k == 3 || k == 6 {
 				ha, hf, hj = w.slotAddr[s], w.slotFam[s], w.slotENI[s]
 			}
 			switch k {
@@ -525,6 +526,12 @@ func evalSeq(in []*big.Int) ([]*big.Int, []*big.Int) {
 				}
 			case 3:
 				err = utils.DelLinkByName(ctx, fmt.Sprintf("calip%d", s))
+				delete(w.slotAddr, s)
+				delete(w.slotFam, s)
+				delete(w.slotENI, s)
+			case 6:
+				// the pod is forgotten without any teardown (no DEL ever arrives, the address is reclaimed by the control plane):
+				// its host veth, routes and rules stay behind
 				delete(w.slotAddr, s)
 				delete(w.slotFam, s)
 				delete(w.slotENI, s)
@@ -608,14 +615,15 @@ func gen(r *hx.Rand) [][]*big.Int {
 		} else {
 			var ops [][]int
 			setup := map[int]bool{}
-			held := map[int]int{} // address -> live slot
+			dead := map[int]bool{} // slots whose pod was forgotten: their network namespace still holds the old interface, a new pod gets a new one
+			held := map[int]int{}  // address -> live slot
 			k := 4 + r.Intn(10)
 			for i := 0; i < k; i++ {
 				s := 1 + r.Intn(3)
 				x := r.Intn(100)
 				switch {
 				case x < 45:
-					if !setup[s] {
+					if !setup[s] && !dead[s] {
 						a := 11 + r.Intn(3)
 						if held[a] != 0 {
 							break // addresses of live pods are unique
@@ -648,14 +656,35 @@ func gen(r *hx.Rand) [][]*big.Int {
 						// the address of the lost sandbox is handed out again, to another pod, maybe on another interface
 						if lost != 0 && r.Chance(1, 2) {
 							s2 := 1 + (s+r.Intn(2))%3
-							if !setup[s2] {
+							if !setup[s2] && !dead[s2] {
 								ops = append(ops, []int{1, s2, lost, 1 + r.Intn(2), []int{1, 3, 2}[r.Intn(3)], 0})
 								setup[s2] = true
 								held[lost] = s2
 							}
 						}
 					}
-				case x < 91:
+				case x < 88:
+					if setup[s] {
+						ops = append(ops, []int{6, s, 0, 0, 0, 0})
+						setup[s] = false
+						dead[s] = true
+						lost := 0
+						for a, t := range held {
+							if t == s {
+								delete(held, a)
+								lost = a
+							}
+						}
+						if lost != 0 && r.Chance(2, 3) {
+							s2 := 1 + (s+r.Intn(2))%3
+							if !setup[s2] && !dead[s2] {
+								ops = append(ops, []int{1, s2, lost, 1 + r.Intn(2), []int{1, 3, 2}[r.Intn(3)], 0})
+								setup[s2] = true
+								held[lost] = s2
+							}
+						}
+					}
+				case x < 94:
 					ops = append(ops, []int{4, 0, 0, 1 + r.Intn(2), 0, 0})
 				default:
 					ops = append(ops, []int{5, 0, 0, 1 + r.Intn(2), 0, 0})
